@@ -413,6 +413,21 @@ extern "C" void h_parts_direct(int ver, int nparts, int mode) {
 	std::vector<Triangle> cur;
 	qs->GetTriangles(cur);
 	sym_assert(out.size() == cur.size() && cur.size() == tris.size(), "C10-direct-count: label list / triangle count changed");
+	// the partitions themselves hold every triangle exactly once (a triangle missing from every partition would be reported
+	// with the default label 0 by the query above)
+	{
+		auto si = q->GetHeader().GetBlock<NiSkinInstance>(qs->SkinInstanceRef());
+		auto sp = si ? q->GetHeader().GetBlock(si->skinPartitionRef) : nullptr;
+		sym_assert(sp != nullptr, "C10-direct-nopart: skin partition block missing");
+		if (sp)
+			for (auto& t : cur) {
+				int holders = 0;
+				for (auto& pb : sp->partitions)
+					for (auto& pt : pb.trueTriangles)
+						holders += same_tri(rot(pt), rot(t)) ? 1 : 0;
+				sym_assert(holders == 1, "C10-direct-held: a triangle is not held by exactly one partition after SetShapePartitions (+ RemoveEmptyPartitions / save)");
+			}
+	}
 	std::vector<int> got(tris.size(), -2);
 	for (size_t i = 0; i < tris.size(); i++)
 		for (size_t j = 0; j < cur.size() && j < out.size(); j++)
